@@ -45,11 +45,11 @@ func main() {
 		{"cache", run.N(150, 20000), 2, 2 * time.Second},
 		{"pw", run.N(600, 100000), 1, time.Second},
 		{"dial", run.N(16, 1500), 4, 15 * time.Second},
-		{"accept", run.N(16, 1500), 4, 20 * time.Second},
+		{"accept", run.N(16, 1000), 4, 20 * time.Second},
 		{"reqout", run.N(24, 2500), 4, 15 * time.Second},
-		{"web", run.N(16, 1500), 4, 20 * time.Second},
+		{"web", run.N(16, 600), 4, 20 * time.Second},
 		{"rate", run.N(4, 60), 2, 30 * time.Second},
-		{"cfg", run.N(120, 20000), 6, 15 * time.Second},
+		{"cfg", run.N(120, 4000), 6, 15 * time.Second},
 	}
 	var wg sync.WaitGroup
 	for _, j := range jobs {
